@@ -117,7 +117,7 @@ theorem zero_never_times_out (cfg : Cfg) (m : Mech) (prog : Prog) (p : Proc) (hu
   | asyncio =>
     have hc := runA_closes cfg [] prog hS p.now none p.closed
     have ho := notTO _ hc.2.2
-    exact ⟨ho, hc.2.1 ho, rfl, ht, rfl⟩
+    exact ⟨ho, hc.2.1 ho, rfl, ht, runA_unarmed_tasks cfg prog _ _ _ hu⟩
   | direct =>
     cases hr : runS cfg prog p with
     | none => simp only [r, (run_signal_none cfg prog p hr).2]; exact ⟨rfl, trivial, trivial, ht, trivial⟩
@@ -372,5 +372,37 @@ def exNested : Prog := .call 5 "send_input" (.call 30 "read" (.work 2 .ret) (.ca
 
 example : let r := run { noTerminate := false } .asyncio exNested {}
     r.fin = some 5 ∧ r.out = .timeout "timed out sending input to device" ∧ r.closed = true := by decide
+
+/-- **asyncio_no_orphans**: in a program that starts tasks only through `wait_for` (the decorator; no
+    `ensure_future` / `create_task` / `asyncio.wait`), once a call is over — returned, raised ScrapliTimeout
+    or cancelled from outside — every task created in its call tree is done: nothing keeps reading from the
+    transport on behalf of an operation that has already failed.  (asyncio analogue of `no_lock_left`.) -/
+theorem asyncio_no_orphans (cfg : Cfg) (prog : Prog) (hs : prog.spawnFree = true) (s : Nat) (ca : Option Nat)
+    (c : Bool) (f τ : Nat) (h : (runA cfg prog s ca c).fin = some f) (hτ : f ≤ τ) :
+    (runA cfg prog s ca c).pendingAt τ = false := by
+  have hj := runA_joined cfg prog hs s ca c f h
+  simp only [ARes.pendingAt, List.any_eq_false]
+  intro a ha
+  obtain ⟨e, he, hle⟩ := hj a ha
+  rw [he]; simp; omega
+
+example : exNested.spawnFree = true ∧ (runA {} exNested 0 none false).tasks.length = 3 := by decide
+
+/-- **asyncio_spawn_orphans** (the full statement without the hypothesis is FALSE): a read kept in flight
+    with `ensure_future` + `asyncio.wait` survives the operation when the outer limit fires.  Witness:
+    in-channel authentication (limit 5) polling a spawned read on a silent device: ScrapliTimeout at 5,
+    the read task still pending then and for ever. -/
+theorem asyncio_spawn_orphans :
+    ¬ (∀ (cfg : Cfg) (prog : Prog) (s : Nat) (ca : Option Nat) (c : Bool) (f : Nat),
+        (runA cfg prog s ca c).fin = some f → (runA cfg prog s ca c).pendingAt f = false) := by
+  intro h
+  have := h {} (.call 5 "channel_authenticate_telnet" (.spawn (.call 0 "read" .hang .ret) .ret) .ret) 0 none false 5
+    (by decide)
+  revert this
+  decide
+
+/-- the tree contains no such site: every awaitable started inside the async channel and the async
+    transports is awaited directly or through `wait_for` (generated from the AST of the live source) -/
+theorem async_spawn_sites_empty : asyncSpawnSites = [] := by decide
 
 end Scrapli.Timeout
